@@ -1344,6 +1344,9 @@ fn resp_case(
     if empty_route {
         // observed behaviour (reported, not part of C20): an empty route makes the traversal plugin fail
         ctx.count("response_empty_route");
+        if std::env::var("C20_DEBUG").is_ok() {
+            eprintln!("EMPTY-ROUTE request {} routes {:?} -> {}", req, routes.iter().map(|r| r.len()).collect::<Vec<_>>(), v);
+        }
         return;
     }
     if is_err {
